@@ -558,6 +558,14 @@ class PeerStateMachine():
 
     def get_next_state(self, next_state: str) -> Any:
         if next_state == CLOSED and self.current_state.name == CLOSED:
+            #: The peer went away before the capabilities exchange has been
+            #: started (R-Conn-CER never came): there is nothing left to wait
+            #: for, so the transport is released like in any other Peer-Disc.
+            if (self.association.is_connected() 
+                    and self.association.transport._stop_threads):
+                self.is_running = False
+                self.association.close()
+
             return self.states[CLOSED]
 
         elif next_state == CLOSED and self.current_state.name != CLOSED:
